@@ -92,6 +92,10 @@ Proof. exact Proofs.MayPanicGen.recover_switch_matches_code. Qed.
 Theorem defer_switch_matches_code : switch_ok defer_action GenMayPanic.defer_switch = true.
 Proof. exact Proofs.MayPanicGen.defer_switch_matches_code. Qed.
 
+Theorem scans_have_no_guards :
+  GenMayPanic.go_switch_guards ++ GenMayPanic.recover_switch_guards ++ GenMayPanic.defer_switch_guards = [].
+Proof. exact Proofs.MayPanicGen.scans_have_no_guards. Qed.
+
 Theorem filter_matches_code : filter_ok = true.
 Proof. exact Proofs.MayPanicGen.filter_matches_code. Qed.
 
